@@ -356,58 +356,60 @@ theorem sum_drvOp {s s' : St} {ob : Obs} (hr : RouteInv s) (hk : KeyU s.searchma
             refine FwdX.trans (b := dropSender (s.ops.set i { o with phase := .taken }) i) ?_ ?_
             · exact FwdX.trans ((t0 { o with phase := .taken } rfl rfl).weaken fun _ h => Or.inl h) (fwdX_dropSender _ _ _)
             · exact fwdX_endDriver' _ _ _ _ rfl (fun _ h => Or.inr h)
-          · cases hkd : o.kind with
-            | single =>
-              simp only [hkd, Option.some.injEq, Prod.mk.injEq] at hs
-              rw [← hs.1]
-              exact StepSum.of_calm (X := fun j => j = i)
-                (Calm.simple (ChLe.refl _) (List.Sublist.refl _) rfl ((t0 _ (by rfl) (by rfl)).trans (fwdX_dropSenderOpt _ _ _))) hk hq hsub hX
-            | search =>
-              cases hch : o.chan with
-              | none =>
-                simp only [hkd, hch, Option.some.injEq, Prod.mk.injEq] at hs
+          · split at hs
+            · cases hs
+            · cases hkd : o.kind with
+              | single =>
+                simp only [hkd, Option.some.injEq, Prod.mk.injEq] at hs
+                rw [← hs.1]
+                exact StepSum.of_calm (X := fun j => j = i)
+                  (Calm.simple (ChLe.refl _) (List.Sublist.refl _) rfl ((t0 _ (by rfl) (by rfl)).trans (fwdX_dropSenderOpt _ _ _))) hk hq hsub hX
+              | search =>
+                cases hch : o.chan with
+                | none =>
+                  simp only [hkd, hch, Option.some.injEq, Prod.mk.injEq] at hs
+                  rw [← hs.1]
+                  exact StepSum.of_calm (X := fun j => j = i)
+                    (Calm.simple (ChLe.refl _) (List.Sublist.refl _) rfl ((t0 _ (by rfl) (by rfl)).trans (fwdX_ack _ _ _))) hk hq hsub hX
+                | some c0 =>
+                  simp only [hkd, hch, Option.some.injEq, Prod.mk.injEq] at hs
+                  rw [← hs.1]
+                  obtain ⟨ch0, hch0, hidx⟩ := hr.chanOf i o c0 ho hch
+                  refine ⟨keyU_insert hk _ _,
+                    hq.of_fwdX (X := fun j => j = i) ((t0 _ (by rfl) (by rfl)).trans (fwdX_ack _ _ _)) hsub hX, fun c => ?_⟩
+                  by_cases hcc : c = c0
+                  · subst hcc
+                    right; left
+                    refine ⟨⟨ch0, o, hch0, by rw [hidx]; exact ho, hiq⟩, rfl, rfl,
+                      ((t0 _ (by rfl) (by rfl)).trans (fwdX_ack _ _ _)).fwd, ?_⟩
+                    intro ch o' hc' ho'
+                    have e : ch = ch0 := by
+                      have h2 : s.chans[c]? = some ch := hc'
+                      rw [hch0] at h2
+                      exact (Option.some.inj h2).symm
+                    subst e
+                    rw [hidx] at ho'
+                    simp only [modifyOp_get, if_pos, get_set _ i ho, Option.map_some, Option.some.injEq] at ho'
+                    rw [← ho']
+                  · left
+                    refine ⟨fun ch' hc' => Or.inl ⟨ch', hc', rfl, rfl, fun h => h⟩, fun ch hc => ⟨ch, hc, rfl⟩, ?_,
+                      ⟨[], by simp [consumed], fun _ _ _ hf => by cases hf⟩,
+                      ((t0 _ (by rfl) (by rfl)).trans (fwdX_ack _ _ _)).fwd⟩
+                    intro k hkc
+                    rcases mem_insert hkc with e | ⟨hin, _⟩
+                    · cases e; exact absurd rfl hcc
+                    · exact hin
+              | abandon t =>
+                simp only [hkd, Option.some.injEq, Prod.mk.injEq] at hs
+                rw [← hs.1]
+                exact StepSum.of_calm (X := fun j => j = i)
+                  (Calm.simple (ChLe.refl _) (erase_sublist _ _) rfl
+                    (((t0 _ (by rfl) (by rfl)).trans (fwdX_dropSenderOpt _ _ _)).trans (fwdX_ack _ _ _))) hk hq hsub hX
+              | unbind =>
+                simp only [hkd, Option.some.injEq, Prod.mk.injEq] at hs
                 rw [← hs.1]
                 exact StepSum.of_calm (X := fun j => j = i)
                   (Calm.simple (ChLe.refl _) (List.Sublist.refl _) rfl ((t0 _ (by rfl) (by rfl)).trans (fwdX_ack _ _ _))) hk hq hsub hX
-              | some c0 =>
-                simp only [hkd, hch, Option.some.injEq, Prod.mk.injEq] at hs
-                rw [← hs.1]
-                obtain ⟨ch0, hch0, hidx⟩ := hr.chanOf i o c0 ho hch
-                refine ⟨keyU_insert hk _ _,
-                  hq.of_fwdX (X := fun j => j = i) ((t0 _ (by rfl) (by rfl)).trans (fwdX_ack _ _ _)) hsub hX, fun c => ?_⟩
-                by_cases hcc : c = c0
-                · subst hcc
-                  right; left
-                  refine ⟨⟨ch0, o, hch0, by rw [hidx]; exact ho, hiq⟩, rfl, rfl,
-                    ((t0 _ (by rfl) (by rfl)).trans (fwdX_ack _ _ _)).fwd, ?_⟩
-                  intro ch o' hc' ho'
-                  have e : ch = ch0 := by
-                    have h2 : s.chans[c]? = some ch := hc'
-                    rw [hch0] at h2
-                    exact (Option.some.inj h2).symm
-                  subst e
-                  rw [hidx] at ho'
-                  simp only [modifyOp_get, if_pos, get_set _ i ho, Option.map_some, Option.some.injEq] at ho'
-                  rw [← ho']
-                · left
-                  refine ⟨fun ch' hc' => Or.inl ⟨ch', hc', rfl, rfl, fun h => h⟩, fun ch hc => ⟨ch, hc, rfl⟩, ?_,
-                    ⟨[], by simp [consumed], fun _ _ _ hf => by cases hf⟩,
-                    ((t0 _ (by rfl) (by rfl)).trans (fwdX_ack _ _ _)).fwd⟩
-                  intro k hkc
-                  rcases mem_insert hkc with e | ⟨hin, _⟩
-                  · cases e; exact absurd rfl hcc
-                  · exact hin
-            | abandon t =>
-              simp only [hkd, Option.some.injEq, Prod.mk.injEq] at hs
-              rw [← hs.1]
-              exact StepSum.of_calm (X := fun j => j = i)
-                (Calm.simple (ChLe.refl _) (erase_sublist _ _) rfl
-                  (((t0 _ (by rfl) (by rfl)).trans (fwdX_dropSenderOpt _ _ _)).trans (fwdX_ack _ _ _))) hk hq hsub hX
-            | unbind =>
-              simp only [hkd, Option.some.injEq, Prod.mk.injEq] at hs
-              rw [← hs.1]
-              exact StepSum.of_calm (X := fun j => j = i)
-                (Calm.simple (ChLe.refl _) (List.Sublist.refl _) rfl ((t0 _ (by rfl) (by rfl)).trans (fwdX_ack _ _ _))) hk hq hsub hX
 
 /-- every step, summarised -/
 theorem StepSum.step {s s' : St} {ob : Obs} (hr : RouteInv s) (hk : KeyU s.searchmap) (hq : QInv s) (e : Ev)
